@@ -1,8 +1,133 @@
 import Driver.Util
-/-! Driver commands: Queue (stub — replaced by the real handler). -/
+import Slock.Model.Queue
+/-! Driver commands for the internal queues (C20).
+
+  queue <kind> <baseNodeSize> <nodeSize> <queueSize> <op>;<op>;…      → <obs>;<obs>;…
+
+kinds `lmq` `lq` `lcq` (LockManagerQueue / LockQueue / LockCommandQueue — one model, three textual copies):
+  push:<id> (0 = nil) → ok          pushl:<id> → ok|full        pop popr head tail → <id>|nil
+  len → <int>                       shrink:<n> → <int>          reset rellac resize restr free → ok
+  iter → [a,b,-][c]…  (one bracket per IterNodeQueues(i), `-` = nil cell)
+  hole:<pos> → ok|miss  (IterNodeQueues(i)[p] = nil for the pos-th cell of the iteration)
+  st → internal fields
+kind `long` (LongWaitLockQueue + restructuringLong*Queue of db.go):
+  push:<id> pop remove:<id> restr len iter st
+A panic prints `panic` and ends the line (the harness discards the instance too).
+-/
 namespace Driver
+open Slock.Queue
+
+def qShowElem : Elem → String
+  | none => "nil"
+  | some n => toString n
+
+def qShowCell : Elem → String
+  | none => "-"
+  | some n => toString n
+
+def qShowArrs (l : List Arr) : String :=
+  String.join (l.map (fun a => "[" ++ ",".intercalate (a.map qShowCell) ++ "]"))
+
+def qShowRef (q : Q) (r : Ref) : String :=
+  match r with
+  | .nil => "nil"
+  | .node j => (match refArr q r with | some [] => "z" | _ => "n" ++ toString j)
+  | .dead _ => (match refArr q r with | some [] => "z" | _ => "d")
+
+def qShowState (q : Q) : String :=
+  let f := ".".intercalate [toString q.hni, toString q.hqi, toString q.hqs, toString q.tni, toString q.tqi, toString q.tqs,
+    toString q.nodeIndex, toString q.nodeSize, toString q.shrinkNodeSize, toString q.queueSize, toString q.rellac]
+  let sz := ".".intercalate (q.sizes.map toString)
+  let nl := String.join (q.queues.map (fun s => match s with | none => "0" | some _ => "1"))
+  let share := match q.headQueue, q.tailQueue with
+    | .dead a, .dead b => if a = b then "s" else "x"
+    | _, _ => ""
+  s!"{f}/{sz}/{nl}/{qShowRef q q.headQueue}/{qShowRef q q.tailQueue}{share}"
+
+/-- result of one op: observation and next state, or a terminal word -/
+inductive QStep (σ : Type)
+  | next (obs : String) (s : σ)
+  | stop (obs : String)
+
+def qLift {α σ : Type} (r : Res α) (f : α → QStep σ) : QStep σ :=
+  match r with
+  | .ok a => f a
+  | .panic => .stop "panic"
+  | .unmodelled => .stop "unmodelled"
+
+def qElemOfId (n : Nat) : Elem := if n = 0 then none else some n
+
+def qStep (q : Q) (op : String) : QStep Q :=
+  match op.splitOn ":" with
+  | ["push", a] => match a.toNat? with
+    | some n => qLift (push q (qElemOfId n)) (fun q => .next "ok" q)
+    | none => .stop "bad-op"
+  | ["pushl", a] => match a.toNat? with
+    | some n => qLift (pushLeft q (qElemOfId n)) (fun (q, ok) => .next (if ok then "ok" else "full") q)
+    | none => .stop "bad-op"
+  | ["pop"] => qLift (pop q) (fun (q, x) => .next (qShowElem x) q)
+  | ["popr"] => qLift (popRight q) (fun (q, x) => .next (qShowElem x) q)
+  | ["head"] => qLift (head q) (fun x => .next (qShowElem x) q)
+  | ["tail"] => qLift (tail q) (fun x => .next (qShowElem x) q)
+  | ["len"] => qLift (len q) (fun n => .next (toString n) q)
+  | ["shrink", a] => match a.toNat? with
+    | some n => qLift (shrink q n) (fun (q, r) => .next (toString r) q)
+    | none => .stop "bad-op"
+  | ["reset"] => qLift (reset q) (fun q => .next "ok" q)
+  | ["rellac"] => qLift (rellac q) (fun q => .next "ok" q)
+  | ["resize"] => qLift (resize q) (fun q => .next "ok" q)
+  | ["restr"] => qLift (restructuring q) (fun q => .next "ok" q)
+  | ["free"] => qLift (freeQueue q) (fun q => .next "ok" q)
+  | ["iter"] => qLift (iterAll q) (fun l => .next (qShowArrs l) q)
+  | ["hole", a] => match a.toNat? with
+    | some n => qLift (hole q n) (fun (q, ok) => .next (if ok then "ok" else "miss") q)
+    | none => .stop "bad-op"
+  | ["st"] => .next (qShowState q) q
+  | _ => .stop "bad-op"
+
+def qLongStep (l : LongQ) (op : String) : QStep LongQ :=
+  match op.splitOn ":" with
+  | ["push", a] => match a.toNat? with
+    | some n => qLift (longPush l n) (fun l => .next "ok" l)
+    | none => .stop "bad-op"
+  | ["pop"] => qLift (longPop l) (fun (l, x) => .next (qShowElem x) l)
+  | ["remove", a] => match a.toNat? with
+    | some n => qLift (longRemove l n) (fun l => .next "ok" l)
+    | none => .stop "bad-op"
+  | ["restr"] => qLift (longRestructuring l) (fun l => .next "ok" l)
+  | ["len"] => qLift (len l.q) (fun n => .next (toString n) l)
+  | ["iter"] => qLift (iterAll l.q) (fun a => .next (qShowArrs a) l)
+  | ["st"] => .next (qShowState l.q ++ "/" ++ toString l.lockCount ++ "/" ++ toString l.freeCount) l
+  | _ => .stop "bad-op"
+
+def qRun {σ : Type} (step : σ → String → QStep σ) : σ → List String → List String → List String
+  | _, [], acc => acc.reverse
+  | s, op :: ops, acc =>
+    match step s op with
+    | .next o s' => qRun step s' ops (o :: acc)
+    | .stop o => (o :: acc).reverse
+
+def qOps (s : String) : List String := (s.splitOn ";").filter (· ≠ "")
 
 def handleQueue : List String → Option String
+  | "queue" :: kind :: b :: n :: s :: rest => do
+    let b ← b.toNat?
+    let n ← n.toNat?
+    let s ← s.toNat?
+    let ops := match rest with
+      | [o] => qOps o
+      | _ => []
+    if kind == "lmq" || kind == "lq" || kind == "lcq" then
+      match newQueue b n s with
+      | .ok q => some (";".intercalate (qRun qStep q ops []))
+      | .panic => some "panic"
+      | .unmodelled => some "unmodelled"
+    else if kind == "long" then
+      match newQueue b n s with
+      | .ok q => some (";".intercalate (qRun qLongStep { q := q, lockCount := 0, freeCount := 0, idx := [] } ops []))
+      | .panic => some "panic"
+      | .unmodelled => some "unmodelled"
+    else none
   | _ => none
 
 end Driver
